@@ -76,6 +76,13 @@ ARENA = {
 for _pid, (_tech, _text) in ARENA.items():
     CHECKS[_pid] = dict(technique=_tech, text=_text, note=ARENA_NOTE, design="§3 " + _pid + ", §8")
 
+CHECKS["C19"] = dict(
+    technique="runtime monitoring: directory-tree snapshot diff (name, sha256, mtime_ns, mode) + strace log of write-intent system calls around the real `llw` run as an unprivileged user, for every cell of the flag x file-state x output-directory x verdict table; lelwel::build through a real build.rs crate",
+    text="Every cell of the table is executed in a fresh directory tree; files created / modified / deleted and the exit status are compared with what the property and --help promise for that cell (nothing in check mode, only the grammar file in format mode, generated.rs iff no error, skeletons iff neither exists, existing lexer.rs / parser.rs byte- and mtime-identical, parser.gv only outside check mode, status 0 iff no error diagnostic). The error verdict per grammar comes from the library through vprobe.",
+    note="runs llw as uid 65534 so that read-only directories are effective; strace only sees system calls of the llw process tree; thorough enumerates the whole table, quick the full table of the plain modes plus a rotating sixth of the rest",
+    design="§3 C19, §8",
+)
+
 NOT_YET = "check not built yet in this round; design in DESIGN.md §3, build order §7"
 
 
